@@ -36,6 +36,8 @@ def to_ctypes(node, cfg, counter):
             raise Unmappable(node["base"])
         return CT[node["base"]]
     if k == "ptr":
+        if cfg.ptr not in CT:
+            raise Unmappable(cfg.ptr)
         return CT[cfg.ptr]
     if k == "array":
         if node["len"]["f"] != "fixed":
@@ -81,6 +83,8 @@ def to_c(node, cfg, name):
             raise Unmappable(node["base"])
         return f"{C_INT[node['base']]} {name}"
     if k == "ptr":
+        if cfg.ptr not in C_INT:
+            raise Unmappable(cfg.ptr)
         return f"{C_INT[cfg.ptr]} {name}"
     if k == "array":
         dims, t = [], node
@@ -397,6 +401,67 @@ def mixed_modes(ctx, n):
                               dict(det, problems=problems))
 
 
+def offset_gaps(ctx, n):
+    """Structures built through the API whose fields sit at explicit forward offsets (gaps between the fields), packed
+    and aligned: the declared size is the end of the last field (rounded in aligned mode), every field is read from
+    and written to its offset, the gaps are written as zeros, and len / consumed / dumped / write() agree."""
+    import io
+
+    from dissect.cstruct import Field
+
+    sizes = {"uint8": 1, "uint16": 2, "uint32": 4, "uint64": 8, "int24": 3, "char": 1}
+    for it in range(n):
+        rng = ctx.rng("offset-gaps", it)
+        endian = rng.choice("<>")
+        spec, off = [], 0
+        for j in range(rng.randint(2, 6)):
+            t = rng.choice(list(sizes))
+            explicit = None
+            if j and rng.random() < 0.5:
+                off += rng.choice([1, 2, 3, 5, 8])
+                explicit = off
+            spec.append((f"f{j}", t, off, explicit))
+            off += sizes[t]
+        end = off
+        for compiled in (True, False):
+            ctx.evaluation(("offset-gaps", repr(spec), endian, compiled))
+            ctx.cell("explicit-forward-offsets")
+            det = {"fields": spec, "endian": endian, "compiled": compiled, "workload": "offset-gaps"}
+            try:
+                cs = lib.cstruct(endian=endian)
+                T = cs._make_struct("T", [Field(nm, getattr(cs, t), offset=ex) for nm, t, _o, ex in spec])
+                if compiled:
+                    from dissect.cstruct import compiler
+
+                    T = compiler.compile(T)
+                data = bytes(rng.randrange(1, 256) for _ in range(end + 9))
+                st = io.BytesIO(data)
+                o = T(st)
+                d = o.dumps()
+                out = io.BytesIO()
+                wrote = o.write(out)
+                bo = "little" if endian == "<" else "big"
+                covered = bytearray(end)
+                vals_ok = True
+                for nm, t, fo, _ex in spec:
+                    raw = data[fo:fo + sizes[t]]
+                    v = getattr(o, nm)
+                    want = raw if t == "char" else int.from_bytes(raw, bo, signed=t.startswith("int"))
+                    vals_ok = vals_ok and (bytes(v) if t == "char" else int(v)) == want and d[fo:fo + sizes[t]] == raw
+                    covered[fo:fo + sizes[t]] = b"\x01" * sizes[t]
+                gaps_zero = all(d[i] == 0 for i in range(min(end, len(d))) if not covered[i])
+                facts = (len(T), [f.offset for f in T.__fields__], st.tell(), len(d), wrote, vals_ok, gaps_zero, T(d) == o)
+                want = (end, [fo for _n, _t, fo, _e in spec], end, end, end, True, True, True)
+            except Exception as e:  # noqa: BLE001
+                ctx.violation("offset-gaps", f"structure-with-explicit-offsets-raises:{type(e).__name__}", dict(det, error=lib.exc_sig(e)))
+                continue
+            if facts != want:
+                ctx.violation("offset-gaps", "structure-with-explicit-forward-offsets:size-read-write-disagree",
+                              dict(det, got=repr(facts), want=repr(want)))
+            else:
+                ctx.event("offset_gaps_checked")
+
+
 def empty_structures(ctx):
     """A structure without members has size 0 and goes anywhere: it changes neither the offsets of its neighbours nor
     the position of the stream."""
@@ -437,6 +502,7 @@ def run(ctx):
     mixed_modes(ctx, 10 if not ctx.thorough else 150)
     if ctx.shard == 0:
         empty_structures(ctx)
+    offset_gaps(ctx, 6 if not ctx.thorough else 120)
     cc = CCompilerOracle(ctx)
     for i in range(N_CASES[ctx.tier]):
         if ctx.out_of_time():
@@ -452,6 +518,10 @@ def run(ctx):
 
 
 def replay(ctx, detail):
+    if detail.get("workload") == "offset-gaps":
+        print(detail)
+        offset_gaps(ctx, 120)
+        return
     if detail.get("workload") == "empty-structures":
         empty_structures(ctx)
         return
